@@ -161,7 +161,8 @@ def mk_order(order, shape):
 
 
 def get_offset(idx, strides):
-    return sum(ii * ss for ii, ss in zip(idx, strides))
+    # python integers: an index given as a small numpy integer must not wrap
+    return sum(int(ii) * int(ss) for ii, ss in zip(idx, strides))
 
 
 def get_item(value, index):
